@@ -216,6 +216,11 @@ structure InvE (cfg : Cfg) (s : State) : Prop where
   stopReqRange : ∀ d, s.nDaemons ≤ d → s.stopReq d = false
   coreStopReq : ∀ p, s.sc = .coreStopping p → s.core.live = true → s.coreCreq = true
   scOverCore : ∀ p, s.sc = .over p → s.core.live = false ∨ p ≠ .none
+  goneSt : ∀ i, s.gone i = true → s.st (.sub i) ≠ .running
+  closingCore : s.sc = .closing → s.core.live = false
+  cleanupCore : ∀ t, s.sc = .cleanup t → s.core.live = false
+  stopReqNone : (s.st (.root .daemonKiller) = .waitingFlag ∨ s.st (.root .daemonKiller) = .running) →
+    ∀ d, s.stopReq d = false
 
 theorem InvE.init (cfg : Cfg) : InvE cfg init := by
   constructor <;> simp [Kopf.C20.init, initSt, Root.guarded, Root.kind]
